@@ -5,9 +5,9 @@
    run() and cache_clear() execute under one lock, so a concurrent execution is a
    sequence of these atomic steps in SOME order: the sequence theorems quantify
    over all sequences, hence over all such orders.  The platform read of a public
-   call is a separate step: the two-thread theorems at the end split every call
-   into read and wrap step and quantify over all schedules. *)
-From PV Require Import C10.Spec C10.Proofs C10.ProofsConc.
+   call is a separate step: the thread theorems at the end split every call into
+   read and wrap step and quantify over all schedules of any number of threads. *)
+From PV Require Import C10.Spec C10.Proofs C10.ProofsWidth C10.ProofsConc.
 
 (* every sequence of wrap_numbers(d, name) / cache_clear(name) / cache_clear() calls
    (unique keys, one tuple width per name): no call fails and every answer is, per
@@ -116,26 +116,98 @@ Theorem C10_nowrap_false_raw : forall legacy s f per raw, raw_ok f raw = true ->
 Proof. exact nowrap_false_raw. Qed.
 Print Assumptions C10_nowrap_false_raw.
 
-(* two threads, every call split into platform read (what the kernel shows now) and
-   wrap step, code as it is now (commit 3202409: a nowrap=True call holds _nowrap_lock
-   from its read to the end of its wrap step -- the schedules satisfying lock_ok):
-   for EVERY such schedule each answer is the one demanded by the raw kernel readings
-   in the order they were read (no cache_clear while a nowrap=True call is in flight) *)
-Theorem C10_two_threads_locked_exact : forall sched,
-  sched_ok (None, None) sched = true -> lock_ok (None, None) sched = true -> clear_ok (None, None) sched = true ->
-  ctrace [] (None, None) sched = map Val (spec_ctrace [] (None, None) sched).
-Proof. exact locked_exact. Qed.
-Print Assumptions C10_two_threads_locked_exact.
+(* tuple widths changing under one name (no width hypothesis, unique keys only): the answers
+   of EVERY call sequence, up to and including the first exception: a tuple not longer than
+   the previous tuple of its key is answered as demanded (surplus old fields ignored), the
+   first longer one raises IndexError *)
+Theorem C10_wrap_value_total : forall ops, forallb keys_ok ops = true ->
+  wtrace [] ops = spec_wtrace_total [] ops.
+Proof. exact wrap_value_total. Qed.
+Print Assumptions C10_wrap_value_total.
 
-(* fixed finding read-outside-lock: without the lock thread A can be pre-empted between
-   its read (150) and its wrap step while B reads 200 and wraps: the readings never go
-   backwards (demanded: the raw readings), A is answered 350 and the next call 410 *)
-Theorem C10_two_threads_unlocked_refuted :
-  exists sched, sched_ok (None, None) sched = true /\ clear_ok (None, None) sched = true /\
-    lock_ok (None, None) sched = false /\
-    spec_ctrace [] (None, None) sched =
-      [(false, PDict (eth 100)); (true, PDict (eth 200)); (false, PDict (eth 150)); (true, PDict (eth 210))] /\
-    ctrace [] (None, None) sched =
-      [Val (false, PDict (eth 100)); Val (true, PDict (eth 200)); Val (false, PDict (eth 350)); Val (true, PDict (eth 410))].
+(* cache_info() shows the ghost state: a name is listed in the three maps iff it has history
+   since its last clear; cache[name] is the last snapshot; reminders[name][(k, i)] reads (default
+   0) the offset accumulated by counter (k, i) in its presence run; every non-zero reminder is
+   indexed by reminder_keys[name][k], and every indexed reminder exists *)
+Theorem C10_cache_info_shows_ghost : forall W ops s f,
+  forallb (wop_ok W) ops = true -> wexec [] ops = Val s ->
+  let c := fst (fst (cache_info s)) in let r := snd (fst (cache_info s)) in let rk := snd (cache_info s) in
+  let h := gget (spec_wexec [] ops) f in
+  match h with
+  | [] => lookup f c = None /\ lookup f r = None /\ lookup f rk = None
+  | d :: _ => exists rm rkm,
+      lookup f c = Some d /\ lookup f r = Some rm /\ lookup f rk = Some rkm /\
+      (forall k i, rem_get rm (k, i) = spec_offset k i h) /\
+      (forall k i, rem_get rm (k, i) <> 0 -> In i (rk_get rkm k)) /\
+      (forall k i, In i (rk_get rkm k) -> rem_mem rm (k, i) = true)
+  end.
+Proof. exact cache_info_shows_ghost. Qed.
+Print Assumptions C10_cache_info_shows_ghost.
+
+(* public functions: after f.cache_clear(), whatever follows that does not feed f's history
+   (nowrap=False calls, the other function, more clears), the next nowrap=True answer is raw *)
+Theorem C10_public_clear_forgets : forall ops mid f per raw s s' a,
+  forallb pop_ok (ops ++ PClear f :: mid) = true -> no_feed f mid = true ->
+  dict_ok (width f) raw = true ->
+  pexec false [] (ops ++ PClear f :: mid) = Val s -> pstep false s (PCall f per true raw) = Val (s', a) ->
+  a = present f per raw.
+Proof. exact public_clear_forgets. Qed.
+Print Assumptions C10_public_clear_forgets.
+
+(* ANY number of threads, both functions, every call split into platform read (what the kernel
+   shows now) and wrap step, cache_clear at any point -- also between the read and the wrap step
+   of a call in flight.  Every well-formed schedule is linearised by [lin] (each call at its wrap
+   step, i.e. between its read and its return; each clear at its own step): the answers are
+   exactly those of the sequential specification on that history *)
+Theorem C10_threads_linearised : forall sched, sched_ok idle sched = true ->
+  ctrace [] idle sched =
+  map Val (combine (map fst (lin idle sched)) (spec_ptrace [] (map snd (lin idle sched)))).
+Proof. exact threads_linearised. Qed.
+Print Assumptions C10_threads_linearised.
+
+(* ... and under _nowrap_lock (code now, commit 3202409: the schedules satisfying lock_ok) the
+   nowrap=True listings enter that history in the order in which they were read from the kernel
+   (tail = the one call possibly still in flight at the end) *)
+Theorem C10_threads_locked_kernel_order : forall sched,
+  sched_ok idle sched = true -> lock_ok None sched = true ->
+  exists tail, reads_nowrap sched = nowrap_calls (map snd (lin idle sched)) ++ tail /\ (length tail <= 1)%nat.
+Proof. exact threads_locked_kernel_order. Qed.
+Print Assumptions C10_threads_locked_kernel_order.
+
+(* cache_clear() forgets all history, in every interleaving: if in the history a clear of f is
+   followed -- after steps that do not feed f's history -- by a nowrap=True call of f, that call
+   is answered with its raw listing (so a clear racing with a call in flight either precedes its
+   wrap step: raw answer, new history starts with it; or follows it: the next call is raw) *)
+Theorem C10_threads_clear_forgets : forall sched L1 t L2 t' f per raw L3,
+  sched_ok idle sched = true ->
+  lin idle sched = L1 ++ (t, PClear f) :: L2 ++ (t', PCall f per true raw) :: L3 ->
+  no_feed f (map snd L2) = true ->
+  exists before after, ctrace [] idle sched = before ++ Val (t', present f per raw) :: after /\
+                       length before = (length L1 + 1 + length L2)%nat.
+Proof. exact threads_clear_forgets. Qed.
+Print Assumptions C10_threads_clear_forgets.
+
+(* read-time reading: under the lock, with no cache_clear while a nowrap=True call is in flight,
+   every answer is the one fixed when the call read the kernel (sequential answer against the
+   listings read so far) *)
+Theorem C10_threads_locked_exact : forall sched,
+  sched_ok idle sched = true -> lock_ok None sched = true -> clear_ok None sched = true ->
+  ctrace [] idle sched = map Val (spec_ctrace [] idle sched).
+Proof. exact locked_exact. Qed.
+Print Assumptions C10_threads_locked_exact.
+
+(* fixed finding read-outside-lock: without the lock thread 0 can be pre-empted between its read
+   (150) and its wrap step while thread 1 reads 200 and wraps: the listings never go backwards
+   in read order, reach the history out of order, thread 0 is answered 350 and the next call 410 *)
+Theorem C10_threads_unlocked_refuted :
+  exists sched, sched_ok idle sched = true /\ clear_ok None sched = true /\ lock_ok None sched = false /\
+    reads_nowrap sched = [PCall Net true true (eth 100); PCall Net true true (eth 150);
+                          PCall Net true true (eth 200); PCall Net true true (eth 210)] /\
+    nowrap_calls (map snd (lin idle sched)) = [PCall Net true true (eth 100); PCall Net true true (eth 200);
+                                                PCall Net true true (eth 150); PCall Net true true (eth 210)] /\
+    spec_ctrace [] idle sched =
+      [(0%nat, PDict (eth 100)); (1%nat, PDict (eth 200)); (0%nat, PDict (eth 150)); (1%nat, PDict (eth 210))] /\
+    ctrace [] idle sched =
+      [Val (0%nat, PDict (eth 100)); Val (1%nat, PDict (eth 200)); Val (0%nat, PDict (eth 350)); Val (1%nat, PDict (eth 410))].
 Proof. exact unlocked_refuted. Qed.
-Print Assumptions C10_two_threads_unlocked_refuted.
+Print Assumptions C10_threads_unlocked_refuted.
